@@ -291,4 +291,27 @@ theorem end_ok {s : St} (hinv : Inv .inBlock s) (hb : SupplyBound s) (hc : EndCo
     omega
   · rw [v5.ghost, u4.withdrawn, w3, v2.ghost]
 
+/-- the fee-burn counter never decreases in EndBlock -/
+theorem end_feeBurn_le {s : St} (hinv : Inv .inBlock s) (hb : SupplyBound s) (hc : EndCompletes s) :
+    s.ghost.feeBurn ≤ (endBlock s).1.ghost.feeBurn := by
+  obtain ⟨hi, hblk, hsync, _⟩ := hinv
+  have hsync := hsync (by decide)
+  obtain ⟨b, s1, s2, s3, s4, ⟨s5, ups⟩, hbk, h1, h2, h3, h4, h5⟩ := hc
+  rw [endBlock_of_completes hbk h1 h2 h3 h4 h5]
+  simp only
+  have hlt : ((two63 * amountPerPower : Nat) : Int) < (two255 : Int) := by decide
+  have hbt : total s < ((two63 * amountPerPower : Nat) : Int) := hb
+  have hfeeS : feeInFlight s = (b.feeSum : Int) := by unfold feeInFlight; rw [hbk]; simp
+  unfold total at hbt
+  have v2 := (freezeProposals_valEq h1).trans (applyProposals_valEq h2)
+  have i2 := v2.inv0 hi
+  have hh2 : holdings s2 = holdings s := v2.holdings
+  obtain ⟨i3, f3, z3, hold3, w3, hfb0⟩ := feeHandover_ok h3 i2 (by rw [hh2]; omega)
+  have sync3 : FrozenSync s3 := by unfold FrozenSync; rw [z3]; exact v2.sync hsync
+  have hb3 : holdings s3 < (two255 : Int) := by omega
+  have u4 := unfreeze_ok h4 i3 hb3 sync3
+  have v5 := updateValidators_valEq h5
+  rw [v5.ghost, u4.feeBurn]
+  rw [v2.ghost] at hfb0; exact hfb0
+
 end Rigo.C02
